@@ -1024,8 +1024,10 @@ def check_C08(run):
         dict(name='ct-32', clients=32, ops=20 if q else 100, keys=12, cfg=dict(rt='ct', ks=8, bloom='small', group=3)),
         dict(name='mt-rot-64', clients=64, ops=12 if q else 60, keys=15, cfg=dict(rt='mt', ks=8, bloom='odd', group=2, max_recs=40)),
         dict(name='ct-rot-16', clients=16, ops=30 if q else 120, keys=6, cfg=dict(rt='ct', ks=8, bloom='off', group=2, max_recs=25)),
-        dict(name='mt-life-24', clients=24, ops=40 if q else 200, keys=8, cfg=dict(rt='mt', ks=8, bloom='small', group=2), lifecycle=40),
-        dict(name='ct-life-16', clients=16, ops=50 if q else 250, keys=6, cfg=dict(rt='ct', ks=8, bloom='off', group=3, max_recs=30), lifecycle=25),
+        dict(name='mt-life-24', clients=24, ops=40 if q else 200, keys=8, cfg=dict(rt='mt', ks=8, bloom='small', group=2), lifecycle=100),
+        dict(name='ct-life-16', clients=16, ops=50 if q else 250, keys=6, cfg=dict(rt='ct', ks=8, bloom='off', group=3, max_recs=30), lifecycle=80),
+        # one client closes the active blob, waits for its index dump and restores it, again and again, while the others read
+        dict(name='mt-restore-12', clients=12, ops=150 if q else 800, keys=12, cfg=dict(rt='mt', ks=8, bloom='small', group=2), restore=True),
         dict(name='ct-1100', clients=1100, ops=2, keys=20, cfg=dict(rt='ct', ks=8, bloom='off', group=8, max_recs=5), deadline=45),
         dict(name='mt-3000', clients=3000, ops=1 if q else 3, keys=20, cfg=dict(rt='mt', ks=8, bloom='off', group=8, max_recs=200), deadline=60),
     ]
@@ -1036,7 +1038,7 @@ def check_C08(run):
         tr = os.path.join(run.work, 'conc-%s.ndjson' % rn['name'])
         cmd = [os.path.join(BIN, 'conc'), '--cfg', json.dumps(h), '--clients', str(rn['clients']), '--ops', str(rn['ops']),
                '--keys', str(rn['keys']), '--out', tr, '--sessions', '2', '--deadline-s', str(rn.get('deadline', 90)),
-               '--lifecycle', str(rn.get('lifecycle', 0))]
+               '--lifecycle', str(rn.get('lifecycle', 0))] + (['--restore-mode'] if rn.get('restore') else [])
         procs.append((subprocess.Popen(cmd, stdout=open(out, 'w'), stderr=open(out + '.err', 'w')), out, tr, rn, h))
     total_ops = events = traces = 0
     for p, out, tr, rn, h in procs:
